@@ -662,3 +662,28 @@ def value_sources(prog, f, op, transparent=None, depth=0, seen=None):
                     continue
         out.append((ff, o))
     return out
+
+
+def effective_arms(f, si):
+    """variant -> block where the code for that variant really starts: sees through the `matches!(x, V)` idiom, where every arm only
+    stores a constant bool and jumps to one common block that switches on that bool"""
+    out = {}
+    for v, t in si["arms"].items():
+        out[v] = t
+        b = f.blocks[t]
+        if b["t"][0] != "goto" or len(b["s"]) != 1:
+            continue
+        st = b["s"][0]
+        if not (st[0] == "A" and not st[1][1] and st[2][0] == "use" and st[2][1][0] == "k" and st[2][1][1].get("ty") == "bool"):
+            continue
+        j = b["t"][1]
+        jt = f.blocks[j]["t"]
+        if jt[0] != "switch" or f.blocks[j]["s"] or jt[1][0] == "k" or jt[1][1][0] != st[1][0] or jt[1][1][1]:
+            continue
+        val = "1" if st[2][1][1].get("v") == "true" else "0"
+        tgt = None
+        for sv, st_ in jt[2]:
+            if str(sv) == val:
+                tgt = st_
+        out[v] = tgt if tgt is not None else jt[3]
+    return out
